@@ -290,15 +290,23 @@ def rule_S3(ctx, rid='S3'):
     for t in walk_no_nested(f.node):
         if id(t) not in in_tests:
             continue
+        left_ = t.left if isinstance(t, ast.Compare) else None
+        if isinstance(left_, ast.Name):
+            # the counts may have been bound to a local first
+            ds = [x for x in walk_no_nested(f.node) if isinstance(x, ast.Assign) and
+                  len(x.targets) == 1 and isinstance(x.targets[0], ast.Name) and
+                  x.targets[0].id == left_.id]
+            if len(ds) == 1:
+                left_ = ds[0].value
         if isinstance(t, ast.Compare) and len(t.ops) == 1 and any(
                 isinstance(x, ast.Call) and dotted(x.func) in ('np.bincount', 'np.sum',
                                                                'np.count_nonzero')
-                for x in ast.walk(t.left)) and any(
+                for x in ast.walk(left_)) and any(
                 isinstance(x, ast.Attribute) and x.attr == 'n_points_min'
                 for x in ast.walk(t.comparators[0])) and \
                 isinstance(t.ops[0], (ast.GtE, ast.Gt, ast.Lt, ast.LtE)) and \
-                'labels' in {x.id for x in ast.walk(t.left) if isinstance(x, ast.Name)} | {
-                    'labels' if 'bincount' in unparse(t.left) else ''}:
+                'labels' in {x.id for x in ast.walk(left_) if isinstance(x, ast.Name)} | {
+                    'labels' if 'bincount' in unparse(left_) else ''}:
             try:
                 fm = linear(t.comparators[0], sym, {})
             except _Unknown:
@@ -335,6 +343,74 @@ def rule_S3(ctx, rid='S3'):
                    'the smaller cluster receives the n_points_min most likely points' if ok else
                    'the smaller cluster is topped up with `%s` points, fewer than n_points_min'
                    % unparse(up))
+    # ... and the OTHER cluster keeps its minimum as well.  The top-up adds the n_points_min most
+    # likely points to the smaller cluster without removing its former members, so that cluster
+    # can grow to 2 n_points_min - 1 and the larger one shrink to N - 2 n_points_min + 1.  With
+    # splits allowed from N >= k n_points_min points (k = factor of the may-split rule) this is
+    # only safe if k >= 3, or if the cluster is re-labelled as a whole (the smaller one gets
+    # exactly n_points_min, the other N - n_points_min >= n_points_min for k >= 2), or if the
+    # sizes are checked again before the children are built.
+    topups = [st for st in walk_no_nested(f.node) if isinstance(st, ast.Assign) and
+              isinstance(st.targets[0], ast.Subscript) and
+              isinstance(st.targets[0].slice, ast.Subscript) and
+              isinstance(st.targets[0].slice.slice, ast.Slice) and
+              any(isinstance(x, ast.Attribute) and x.attr == 'n_points_min'
+                  for x in ast.walk(st.targets[0].slice))]
+    if topups:
+        cfg = cfg_of(f)
+        tu = topups[0]
+        lname = tu.targets[0].value.id if isinstance(tu.targets[0].value, ast.Name) else None
+        k = None
+        for x in ast.walk(ctx.program.func('Union.compute').node):
+            if isinstance(x, ast.Compare) and len(x.ops) == 1 and \
+                    isinstance(x.ops[0], (ast.Lt, ast.LtE)) and \
+                    'n_points_min' in unparse(x.comparators[0]) and \
+                    isinstance(x.left, ast.Call) and dotted(x.left.func) == 'len':
+                try:
+                    fm = linear(x.comparators[0], sym, {})
+                    k = fm.get('m', 0)
+                except _Unknown:
+                    pass
+        # (a) whole relabelling just before the top-up: labels[:] = <other> / labels = np.full
+        relabel = False
+        if lname and cfg.has(tu):
+            for st in walk_no_nested(f.node):
+                if isinstance(st, ast.Assign) and cfg.has(st) and st is not tu and \
+                        cfg.dominates(cfg.node_of(st).id, cfg.node_of(tu).id) and \
+                        cfg.strict_guards(cfg.node_of(st).id) == \
+                        cfg.strict_guards(cfg.node_of(tu).id):
+                    t0 = st.targets[0]
+                    whole = (isinstance(t0, ast.Subscript) and isinstance(t0.value, ast.Name)
+                             and t0.value.id == lname and isinstance(t0.slice, ast.Slice) and
+                             t0.slice.lower is None and t0.slice.upper is None) or \
+                            (isinstance(t0, ast.Name) and t0.id == lname and
+                             isinstance(st.value, ast.Call) and
+                             dotted(st.value.func) in ('np.full', 'np.full_like', 'np.where'))
+                    if whole:
+                        relabel = True
+        # (b) a second size check between the top-up and the construction of the children
+        recheck = False
+        if cfg.has(tu):
+            after = cfg.reach(cfg.node_of(tu).id)
+            for t in cfg.nodes:
+                if t.kind == 'test' and t.id in after and t.expr is not None and any(
+                        isinstance(x, ast.Call) and dotted(x.func) in (
+                            'np.bincount', 'np.sum', 'np.count_nonzero', 'len')
+                        for x in ast.walk(t.expr)) and 'n_points_min' in unparse(t.expr) and \
+                        not cfg.can_reach(t.id, cfg.node_of(tu).id):
+                    recheck = True
+        ok = relabel and (k is not None and k >= 2) or recheck or (k is not None and k >= 3)
+        n += 1
+        ctx.ob(rid, 'Union.split:both-clusters-keep-minimum', ok, f.where(tu),
+               'after the top-up both clusters hold at least n_points_min points (%s)' % (
+                   'whole relabelling, splits from %s n_points_min points' % k if relabel else
+                   ('sizes re-checked' if recheck else 'splits only from %s n_points_min' % k))
+               if ok else
+               'the top-up gives the smaller cluster its n_points_min most likely points without '
+               'taking its former members away, so it can grow to 2 n_points_min - 1 while '
+               'splits are allowed from %s n_points_min points: the LARGER cluster can be left '
+               'with fewer than n_points_min points (no whole relabelling, no second size '
+               'check)' % (k if k is not None else '?'))
     return n
 
 
